@@ -251,7 +251,22 @@ def check(ctx):
             tests = [t for t in tests if not M.dominated_by_edge([t], ctl["STOP"], "T")]
         else:
             tests = [t for t in tests if M.dominated_by_edge([t], ctl["STOP"], "T")]
-        M.need(tests, "running-status test in %s branch" % region)
+        # exitAll() runs in this branch exactly for a framer that has entered frames (STARTED or RUNNING), however the test is spelled
+        from ..rules import path_condition, formula_equiv
+        rstart = [b for b, lab in mc.succ[ctl["STOP"].id] if lab == ("T" if region == "STOP" else "F")]
+        inreg = mc.reachable(rstart[0], removed_nodes=[y.id for y in yields]) | {rstart[0]} if rstart else set()
+        ex_reg = [e for e in exits if e.id in inreg]
+        pcs = ("or", [path_condition(M, e, start=rstart) for e in ex_reg])
+        okf = bool(ex_reg) and (formula_equiv(pcs, "status == RUNNING or status == STARTED") or
+                                formula_equiv(pcs, "self.status == RUNNING or self.status == STARTED"))
+        ctx.check(okf, "T1-exitall", (ex_reg[0].ast if ex_reg else mr), "%s branch: exitAll() iff status is RUNNING or STARTED" % region,
+                  "a framer that is STARTED has entered its frames and run their enter actions just like a RUNNING one: if the %s "
+                  "branch exits frames only for one of the two states, the other keeps its frames entered when the run returns"
+                  % region)
+        if not tests:
+            if okf:
+                M.need(tests, "running-status test in %s branch" % region)
+            continue
         t = tests[0]
         tsucc = [b for b, lab in mc.succ[t.id] if lab == "T"]
         ok = mc.always_reaches([t.id], [e.id for e in exits] + [b for b, lab in mc.succ[t.id] if lab == "F"],
